@@ -106,10 +106,28 @@ async fn wait_for<F: Fn(&[Ev]) -> bool>(log: &Arc<Mutex<Vec<Ev>>>, pred: F, ms: 
 
 /// Send a probe message to a live process and require delivery + a still-registered connection.
 async fn probe(ctx: &Ctx, w: &World, peer: &mut Peer, uid: i128, after: &str, scenario: usize) -> bool {
+    probe_as(ctx, w, peer, uid, after, scenario, false).await
+}
+
+/// `in_pieces`: the frame reaches the node as length prefix, pause, first half of the body, pause, rest.
+async fn probe_as(ctx: &Ctx, w: &World, peer: &mut Peer, uid: i128, after: &str, scenario: usize, in_pieces: bool) -> bool {
     let target = &w.procs[0];
     let payload = Val::Tuple(vec![Val::atom("probe"), Val::int(uid)]);
     let control = Val::Tuple(vec![Val::int(2), Val::atom(""), pidval(target)]);
-    if peer.write_frame4(&pt(&control, Some(&payload))).await.is_err() {
+    let written = if in_pieces {
+        let body = pt(&control, Some(&payload));
+        let mut f = (body.len() as u32).to_be_bytes().to_vec();
+        f.extend_from_slice(&body);
+        let mut ok = true;
+        for (a, b) in [(0usize, 4usize), (4, 4 + body.len() / 2), (4 + body.len() / 2, f.len())] {
+            ok &= peer.sock_write(&f[a..b]).await.is_ok();
+            tokio::time::sleep(Duration::from_millis(80)).await;
+        }
+        ok
+    } else {
+        peer.write_frame4(&pt(&control, Some(&payload))).await.is_ok()
+    };
+    if !written {
         ctx.viol(&format!("C19:receiver-gone-after:{}", after), "the peer could not write any more: the node closed the connection", json!({"scenario": scenario, "after": after}));
         return false;
     }
@@ -485,18 +503,21 @@ async fn quiet_period(ctx: &Ctx, epmd: &net::EpmdTable, id: usize, periods: usiz
             return;
         }
     }
-    let _ = probe(ctx, &w, &mut peer, 424242 + id as i128, "Quiet", id).await;
+    // first a frame that arrives in pieces right after the silence, then an ordinary one
+    if probe_as(ctx, &w, &mut peer, 434343 + id as i128, "Quiet+FrameInPieces", id, true).await {
+        let _ = probe(ctx, &w, &mut peer, 424242 + id as i128, "Quiet", id).await;
+    }
     ctx.count("quiet_periods_survived_or_judged", periods as u64);
 }
 
 pub fn run(ctx: &Ctx) {
-    ctx.rule("scenarios = scripted inbound histories over a real connection to a Node with three recording processes and one registered name: sends to pids and names, exit and monitor notifications, replies to outstanding remote calls, and after each fault (tick, undecodable body, wrong marker byte, control term that is not a tuple / empty tuple / unknown kind, unknown pid, unknown name, reply to an unknown call, truncated payload, link control) a probe message that must be delivered with the connection still registered; then the peer closes / ends the stream inside a frame / sends an over-long length and the connection must be deregistered within 5 s; plus bursts of 150..2600 frames (around the 1000-slot mailbox) for a process whose handler is gated or slow, each of which must be delivered exactly once; plus quiet periods of 12.5 s (longer than the node's fixed 10 s read timeout) followed by a tick and a probe; evaluations = routed frames, probes and terminal checks judged; distinct = distinct (frame kind / fault kind / terminal kind) labels");
+    ctx.rule("scenarios = scripted inbound histories over a real connection to a Node with three recording processes and one registered name: sends to pids and names, exit and monitor notifications, replies to outstanding remote calls, and after each fault (tick, undecodable body, wrong marker byte, control term that is not a tuple / empty tuple / unknown kind, unknown pid, unknown name, reply to an unknown call, truncated payload, link control) a probe message that must be delivered with the connection still registered; then the peer closes / ends the stream inside a frame / sends an over-long length and the connection must be deregistered within 5 s; plus bursts of 150..2600 frames (around the 1000-slot mailbox) for a process whose handler is gated or slow, each of which must be delivered exactly once; plus quiet periods of 12.5 s (longer than the node's fixed 10 s read timeout) each followed by a tick (so a tick is itself followed by a silence longer than the timeout), then a probe arriving in pieces and an ordinary probe; evaluations = routed frames, probes and terminal checks judged; distinct = distinct (frame kind / fault kind / terminal kind) labels");
     ctx.assume("verdicts by delivery of the probe, not by timing; the quiet-period scenario runs concurrently with the others");
     let mut rng = Rng::derive(ctx.seed, 19, 1);
     let rt = tokio::runtime::Builder::new_multi_thread().worker_threads(8).enable_all().build().expect("runtime");
     rt.block_on(async {
         let epmd = net::start_epmd().await;
-        let periods = ctx.pick(1usize, 2usize);
+        let periods = ctx.pick(2usize, 3usize);
         let n = ctx.pick(45usize, 3000usize);
         let quiet = quiet_period(ctx, &epmd, 900_000, periods);
         let others = async {
